@@ -43,6 +43,9 @@ def run(ctx: Ctx):
     from .common import generic_lints
 
     generic_lints(ctx)
+    from .common import float64_extractors
+
+    float64_extractors(ctx)
 
 
 class _Ren(ast.NodeTransformer):
